@@ -6,7 +6,6 @@ use crate::construction::features::capacity::MaxFutureCapacityActivityState;
 use crate::models::common::LoadOps;
 use rosomaxa::algorithms::math::get_cv_safe;
 use std::cmp::Ordering;
-use std::marker::PhantomData;
 
 /// Creates a feature which balances max load across all tours.
 pub fn create_max_load_balanced_feature<T>(
@@ -17,8 +16,6 @@ pub fn create_max_load_balanced_feature<T>(
 where
     T: LoadOps,
 {
-    struct MaxLoadBalancedKey;
-
     let default_capacity = T::default();
     let default_intervals = vec![(0_usize, 0_usize)];
 
@@ -39,13 +36,11 @@ where
         get_cv_safe(ctx.routes.iter().map(|route_ctx| get_load_ratio(route_ctx)).collect::<Vec<_>>().as_slice())
     });
 
-    create_feature::<MaxLoadBalancedKey>(name, route_estimate_fn, solution_estimate_fn)
+    create_feature(name, route_estimate_fn, solution_estimate_fn)
 }
 
 /// Creates a feature which balances activities across all tours.
 pub fn create_activity_balanced_feature(name: &str) -> Result<Feature, GenericError> {
-    struct ActivityBalancedKey;
-
     let route_estimate_fn = Arc::new(|route_ctx: &RouteContext| route_ctx.route().tour.job_activity_count() as Float);
     let solution_estimate_fn = Arc::new(|solution_ctx: &SolutionContext| {
         get_cv_safe(
@@ -58,23 +53,20 @@ pub fn create_activity_balanced_feature(name: &str) -> Result<Feature, GenericEr
         )
     });
 
-    create_feature::<ActivityBalancedKey>(name, route_estimate_fn, solution_estimate_fn)
+    create_feature(name, route_estimate_fn, solution_estimate_fn)
 }
 
 /// Creates a feature which which balances travelled durations across all tours.
 pub fn create_duration_balanced_feature(name: &str) -> Result<Feature, GenericError> {
-    struct DurationBalancedKey;
-
-    create_transport_balanced_feature::<DurationBalancedKey>(name, |state| state.get_total_duration())
+    create_transport_balanced_feature(name, |state| state.get_total_duration())
 }
 
 /// Creates a feature which which balances travelled distances across all tours.
 pub fn create_distance_balanced_feature(name: &str) -> Result<Feature, GenericError> {
-    struct DistanceBalancedKey;
-    create_transport_balanced_feature::<DistanceBalancedKey>(name, |state| state.get_total_distance())
+    create_transport_balanced_feature(name, |state| state.get_total_distance())
 }
 
-fn create_transport_balanced_feature<K: Send + Sync + 'static>(
+fn create_transport_balanced_feature(
     name: &str,
     value_fn: impl Fn(&RouteState) -> Option<&Float> + Send + Sync + 'static,
 ) -> Result<Feature, GenericError> {
@@ -88,78 +80,41 @@ fn create_transport_balanced_feature<K: Send + Sync + 'static>(
         }
     });
 
-    create_feature::<K>(name, route_estimate_fn, solution_estimate_fn)
+    create_feature(name, route_estimate_fn, solution_estimate_fn)
 }
 
-fn create_feature<K: Send + Sync + 'static>(
+fn create_feature(
     name: &str,
     route_estimate_fn: Arc<dyn Fn(&RouteContext) -> Float + Send + Sync>,
     solution_estimate_fn: Arc<dyn Fn(&SolutionContext) -> Float + Send + Sync>,
 ) -> Result<Feature, GenericError> {
+    // NOTE: values are derived from tour states maintained by other features (transport, capacity), so they
+    // are not cached here: a cached copy would depend on the order in which feature states are updated
     FeatureBuilder::default()
         .with_name(name)
-        .with_objective(WorkBalanceObjective {
-            route_estimate_fn: route_estimate_fn.clone(),
-            solution_estimate_fn: solution_estimate_fn.clone(),
-            phantom_data: PhantomData::<K>,
-        })
-        .with_state(WorkBalanceState { route_estimate_fn, solution_estimate_fn, phantom_data: PhantomData::<K> })
+        .with_objective(WorkBalanceObjective { route_estimate_fn, solution_estimate_fn })
         .build()
 }
 
-struct WorkBalanceObjective<K: Send + Sync + 'static> {
+struct WorkBalanceObjective {
     route_estimate_fn: Arc<dyn Fn(&RouteContext) -> Float + Send + Sync>,
     solution_estimate_fn: Arc<dyn Fn(&SolutionContext) -> Float + Send + Sync>,
-    phantom_data: PhantomData<K>,
 }
 
-impl<K: Send + Sync + 'static> FeatureObjective for WorkBalanceObjective<K> {
+impl FeatureObjective for WorkBalanceObjective {
     fn fitness(&self, solution: &InsertionContext) -> Cost {
-        solution
-            .solution
-            .state
-            .get_value::<K, Float>()
-            .cloned()
-            .unwrap_or_else(|| (self.solution_estimate_fn)(&solution.solution))
+        (self.solution_estimate_fn)(&solution.solution)
     }
 
     fn estimate(&self, move_ctx: &MoveContext<'_>) -> Cost {
         match move_ctx {
             MoveContext::Route { route_ctx, .. } => {
-                let value = route_ctx
-                    .state()
-                    .get_tour_state::<K, Float>()
-                    .cloned()
-                    .unwrap_or_else(|| (self.route_estimate_fn)(route_ctx));
+                let value = (self.route_estimate_fn)(route_ctx);
 
                 // NOTE: this value doesn't consider a route state after insertion of given job
                 if value.is_finite() { value } else { Cost::default() }
             }
             MoveContext::Activity { .. } => Cost::default(),
         }
-    }
-}
-
-struct WorkBalanceState<K: Send + Sync + 'static> {
-    route_estimate_fn: Arc<dyn Fn(&RouteContext) -> Float + Send + Sync>,
-    solution_estimate_fn: Arc<dyn Fn(&SolutionContext) -> Float + Send + Sync>,
-    phantom_data: PhantomData<K>,
-}
-
-impl<K: Send + Sync + 'static> FeatureState for WorkBalanceState<K> {
-    fn accept_insertion(&self, solution_ctx: &mut SolutionContext, route_index: usize, _: &Job) {
-        self.accept_route_state(solution_ctx.routes.get_mut(route_index).unwrap());
-    }
-
-    fn accept_route_state(&self, route_ctx: &mut RouteContext) {
-        let value = (self.route_estimate_fn)(route_ctx);
-
-        route_ctx.state_mut().set_tour_state::<K, _>(value);
-    }
-
-    fn accept_solution_state(&self, solution_ctx: &mut SolutionContext) {
-        let value = (self.solution_estimate_fn)(solution_ctx);
-
-        solution_ctx.state.set_value::<K, _>(value);
     }
 }
